@@ -41,7 +41,7 @@ def con(c, value=None, lax=False, vals=(), s=""):
 def strip(T):
     """descriptor without the python payloads (what is sent to TLC)"""
     if isinstance(T, dict):
-        return {k: strip(v) for k, v in T.items() if k != "py"}
+        return {k: strip(v) for k, v in T.items() if k != "py" and not k.startswith("_")}
     if isinstance(T, list):
         return [strip(x) for x in T]
     return T
